@@ -1,6 +1,8 @@
 import MosdnsVerif.Base.Hex
 import MosdnsVerif.Model.C20
 import MosdnsVerif.Model.C20Pool
+import MosdnsVerif.Model.C20Time
+import MosdnsVerif.Gen.FnFallback
 
 namespace Driver.C20
 open Model.C20
@@ -29,11 +31,26 @@ def borrow? (s : String) : Option (List Model.C20Pool.Use) :=
   if s == "-" then some [] else
   s.toList.mapM (fun c => if c == 'f' then some .fire else if c == 'r' then some .recv else none)
 
+/-- `<ms>:<label>`: a step with the time at which it is taken (ms since the start of the call) -/
+def tlabel? (s : String) : Option TLabel :=
+  match s.splitOn ":" with
+  | [t, l] => match t.toInt?, label? l with
+    | some t, some l => some (t * 1000000, l)
+    | _, _ => none
+  | _ => none
+
 /-- `pool <borrow;borrow;...>` (oldest first): the timer `pool.GetTimer` hands out after these borrows of it,
 with the draining `ReleaseTimer` the facts guard demands.
 
 `sched <pAns> <sAns> <standby> <label,label,...>`: run the schedule; it must be
-enabled step by step. Output: result, whether the secondary was started. -/
+enabled step by step. Output: result, whether the secondary was started.
+
+`thr <ms>`: the timer duration (ns) of a plugin configured with `threshold: ms` (the regenerated
+`Gen.fallbackThreshold`).
+
+`tsched <ms> <pAns> <sAns> <standby> <t:label,t:label,...>`: a timed schedule for a plugin configured with
+`threshold: ms`: times must not go backwards and the timer must not fire before `Gen.fallbackThreshold ms`;
+then as `sched`. -/
 def handle : List String → String
   | ["sched", p, s, sb, ls] =>
     match Hex.bool? p, Hex.bool? s, Hex.bool? sb, (ls.splitOn ",").mapM label? with
@@ -42,6 +59,19 @@ def handle : List String → String
       | none => "not-enabled"
       | some st => s!"{showRes st.result} secStarted={Hex.showBool (secStarted st)}"
     | _, _, _, _ => "bad-op"
+  | ["thr", ms] =>
+    match ms.toInt? with
+    | some ms => s!"{Gen.fallbackThreshold ms}"
+    | none => "bad-op"
+  | ["tsched", ms, p, s, sb, ls] =>
+    match ms.toInt?, Hex.bool? p, Hex.bool? s, Hex.bool? sb, (ls.splitOn ",").mapM tlabel? with
+    | some ms, some p, some s, some sb, some tls =>
+      if !mono tls then "time-goes-backwards"
+      else if !admissible (Gen.fallbackThreshold ms) tls then "timer-fires-before-the-plugin's-threshold"
+      else match runLenient ⟨p, s, sb, true⟩ init (labelsOf tls) with
+        | none => "not-enabled"
+        | some st => s!"{showRes st.result} secStarted={Hex.showBool (secStarted st)}"
+    | _, _, _, _, _ => "bad-op"
   | ["pool", hist] =>
     match (hist.splitOn ";").mapM borrow? with
     | some bs =>
